@@ -81,7 +81,7 @@ def gen_script(rng, spec, nkeys, length):
 def scripted_runs(ctx, n_per_flavour):
     rng = ctx.subrng("scripts")
     out = []
-    with S.pinned_tz(S.LOCAL_TZ):
+    with S.gettz_env():
         for spec in FLAVOURS:
             for i in range(n_per_flavour):
                 cap = rng.choice([0, 1, 2, 3, 5, 8])
@@ -110,6 +110,12 @@ FIXED_CASES = [
     ("single", 8, [[("call", 0)], [("call", 0)]], 3),
     ("single0", 8, [[("call", 0)], [("call", 0)]], 3),
     ("tzoffset", 1, [[("call", 0, 0)], [("call", 0, 1)], [("call", 0, 0)]], 2),
+    # exceptional exits of the critical section: one thread's constructor raises under the lock
+    ("tzoffset", 1, [[("call", 20, 0)], [("call", 0, 0)]], 3),
+    ("tzstr", 1, [[("call", 20, 0), ("call", 0, 0)], [("call", 0, 1)]], 2),
+    ("gettz", 1, [[("call", 26, 0)], [("call", 0, 0)], [("call", 26, 1)]], 2),
+    # names that resolve to an existing shared object (UTC / GMT -> tz.UTC, vendored entry)
+    ("gettz", 1, [[("call", 22, 0), ("fresh", 23)], [("call", 23, 1), ("fresh", 24)]], 2),
 ]
 
 
@@ -133,9 +139,10 @@ def gen_case(rng):
     if spec == "gettz":
         nz = len(S.zoneinfo_names())
         pool = rng.sample(range(nz), 2) + ([nz + rng.randrange(2)] if rng.random() < 0.3 else []) + \
-               ([nz + 2 + rng.randrange(2)] if rng.random() < 0.3 else [])
+               ([nz + 2 + rng.randrange(2)] if rng.random() < 0.3 else []) + \
+               ([nz + 4 + rng.randrange(4)] if rng.random() < 0.35 else []) + ([nz + 8] if rng.random() < 0.25 else [])
     else:
-        pool = rng.sample(range(nkeys), rng.choice([1, 2, 3]))
+        pool = rng.sample(range(nkeys - 1), rng.choice([1, 2, 3])) + ([nkeys - 1] if rng.random() < 0.3 else [])
     scripts = []
     for _ in range(nthreads):
         sc = []
@@ -160,9 +167,21 @@ def summarize(rec, spec, cap, scripts, extra):
          "schedule": rec["schedule"], "req": rec["request"], "labels": rec["labels"], "expect": rec["expect"],
          "rets": rec["rets"], "errors": rec["errors"], "deadlock": rec["deadlock"], "all_returned": rec["all_returned"],
          "dups": rec["dups"], "lock_balanced": rec["lock_balanced"], "strong": rec["strong"], "weak": rec["weak"],
-         "cap_now": rec["cap"], "steps": rec["steps"], "unmapped": rec["unmapped"]}
+         "cap_now": rec["cap"], "steps": rec["steps"], "unmapped": rec["unmapped"],
+         "lock_leaked": rec["lock_leaked"], "not_fresh": rec["not_fresh"]}
     d.update(extra)
     return d
+
+
+def record_explore(ctx, cid, spec, scripts, bound, executed, distinct, exhaustive):
+    """per case: how many DISTINCT schedules were executed and whether that was every schedule within the bound"""
+    ctx.hist["explore_%s_%s_bound%d_distinct_schedules" % (cid, spec, bound)] = distinct
+    ctx.hist["explore_%s_%s_bound%d_exhaustive" % (cid, spec, bound)] = int(bool(exhaustive))
+    ctx.count("explore_executions", executed)
+    ctx.count("explore_cases_exhaustive" if exhaustive else "explore_cases_truncated")
+    ctx.note("schedule enumeration %s (%s, %d threads, preemption bound %d): %d distinct schedules, %s"
+             % (cid, spec, len(scripts), bound, distinct,
+                "EXHAUSTIVE (every schedule within the bound)" if exhaustive else "TRUNCATED by the run budget (not all schedules within the bound)"))
 
 
 def threaded_runs(ctx):
@@ -171,17 +190,17 @@ def threaded_runs(ctx):
         return ctx._c18_threads
     runs = []
     ctx._c18_shape = []
-    max_runs = ctx.budget(60, 1000)
-    with S.pinned_tz(S.LOCAL_TZ):
+    max_runs = ctx.budget(160, 1000)
+    with S.gettz_env():
         for ci, (spec, cap, scripts, bound) in enumerate(FIXED_CASES):
-            b = bound if ctx.tier == "thorough" or ctx.escalated else min(bound, 2)
+            b = bound if ctx.tier == "thorough" or ctx.escalated else (1 if len(scripts) <= 2 else 0)   # quick: small bounds, meant to be exhaustive
             def make(spec=spec, cap=cap, scripts=scripts):
                 return S.make_factory(spec, cap), scripts
             def on_run(rec, fac, scripts, spec=spec, cap=cap, ci=ci):
                 runs.append(summarize(rec, spec, cap, scripts, {"policy": "prefix", "case": ci}))
             try:
-                n, exhausted = S.explore(make, b, max_runs, on_run)
-                ctx.count("explore_case_%d_%s_bound%d_%s" % (ci, spec, b, "exhausted" if exhausted else "truncated"), n)
+                ex, distinct, exhaustive = S.explore(make, b, max_runs, on_run)
+                record_explore(ctx, "case%d" % ci, spec, scripts, b, ex, distinct, exhaustive)
             except S.ShapeChanged as ex:
                 ctx._c18_shape.append("%s: %s" % (spec, ex))
         for ci, (spec, cap, scripts, bound) in enumerate(FINE_CASES):
@@ -190,9 +209,9 @@ def threaded_runs(ctx):
             def on_run(rec, fac, scripts, spec=spec, cap=cap, ci=ci):
                 runs.append(summarize(rec, spec, cap, scripts, {"policy": "prefix", "case": "fine%d" % ci, "fine": True}))
             try:
-                b = bound if ctx.tier == "thorough" or ctx.escalated else 1
-                n, exhausted = S.explore(make, b, ctx.budget(80, 500), on_run, fine=True)
-                ctx.count("explore_fine_%d_%s_bound%d_%s" % (ci, spec, b, "exhausted" if exhausted else "truncated"), n)
+                b = bound if ctx.tier == "thorough" or ctx.escalated else (1 if len(scripts) <= 2 else 0)
+                ex, distinct, exhaustive = S.explore(make, b, ctx.budget(160, 500), on_run, fine=True)
+                record_explore(ctx, "fine%d" % ci, spec, scripts, b, ex, distinct, exhaustive)
             except S.ShapeChanged as ex:
                 ctx._c18_shape.append("%s: %s" % (spec, ex))
         rng = ctx.subrng("threads")
@@ -547,7 +566,7 @@ def oracle(ctx):
     # ---- threads: no exception, every call returns, one live object per key ----
     for r in threaded_runs(ctx):
         key = (r["spec"], r["cap"], json.dumps(r["scripts"]), tuple(r["schedule"]), r.get("seed"), r.get("fine"))
-        nontriv = any(x[3] and not x[4] for x in r["rets"])
+        nontriv = any(x[3] and not x[4] for x in r["rets"])           # at least one cached request completed
         ctx.case(key, nontrivial=nontriv)
         case = {k: r[k] for k in ("mode", "spec", "cap", "scripts", "schedule", "policy")}
         for k in ("seed", "env_rate", "fine", "stickiness"):
@@ -557,8 +576,14 @@ def oracle(ctx):
             ctx.violation("a factory call raised under threads: %s" % r["errors"][0]["exception"], case, r["errors"])
         if r["deadlock"] or not r["all_returned"]:
             ctx.violation("a factory call did not return (deadlock=%s)" % r["deadlock"], case, None)
-        if not r["lock_balanced"]:
-            ctx.violation("cache lock acquire/release unbalanced", case, None)
+        if not r["lock_balanced"] or r["lock_leaked"]:
+            ctx.violation("cache lock acquire/release unbalanced (an exception left the call holding the lock: %s)" % (r["lock_leaked"],), case, None)
+        if r["not_fresh"]:
+            ctx.violation("instance/nocache returned an object that another call of the run also returned: %r" % (r["not_fresh"],), case, None)
+        if any(x[5] for x in r["rets"]):
+            ctx.count("threaded_runs_with_a_raising_constructor")
+        if any(x[6] and not x[3] for x in r["rets"]):
+            ctx.count("threaded_runs_with_nocache_of_a_shared_object")
         if r["dups"]:
             if r["spec"] == "single0":
                 # a _TzSingleton class whose slot was NOT filled at import: the model predicts this race;
@@ -614,8 +639,8 @@ def direct_identity(ctx, tz):
 
     def requests():
         out = [("gettz", n) for n in names + extra]
-        out += [("tzoffset", k) for k in S.OFFSET_KEYS]
-        out += [("tzstr", k) for k in S.STR_KEYS]
+        out += [("tzoffset", k) for k in S.OFFSET_KEYS if k not in S.OFFSET_RAISES]
+        out += [("tzstr", k) for k in S.STR_KEYS if k not in S.STR_RAISES]
         out += [("tzutc", None)]
         return out
 
@@ -682,13 +707,13 @@ def direct_identity(ctx, tz):
         if do(q) is not a:
             ctx.violation("instance/nocache disturbed the cache for %r" % (q,), {"op": "fresh_touch", "kind": q[0], "arg": q[1]}, None)
     # the object returned is the one asked for
-    for n, o in S.OFFSET_KEYS:
+    for n, o in [k for k in S.OFFSET_KEYS if k not in S.OFFSET_RAISES]:
         z = tz.tzoffset(n, o)
         ctx.case(("offset_args", n, o))
         if z.tzname(None) != n or z.utcoffset(None) != datetime.timedelta(seconds=o):
             ctx.violation("tzoffset(%r, %r) returned a zone with name %r offset %r" % (n, o, z.tzname(None), z.utcoffset(None)),
                           {"op": "args", "kind": "tzoffset", "arg": [n, o]}, None)
-    for s, px in S.STR_KEYS:
+    for s, px in [k for k in S.STR_KEYS if k not in S.STR_RAISES]:
         z = tz.tzstr(s, px)
         ctx.case(("str_args", s, px))
         if behaviour(z) != behaviour(tz.tzstr.instance(s, px)) or z._s != s:
@@ -774,7 +799,7 @@ def replay(ctx, payload):
     from dateutil import tz
     c = payload["violation"]["case"]
     if c.get("mode") == "threads":
-        with S.pinned_tz(S.LOCAL_TZ):
+        with S.gettz_env():
             fac = S.make_factory(c["spec"], c["cap"])
             scripts = [[tuple(o) for o in sc] for sc in c["scripts"]]
             if c.get("policy") == "random":
